@@ -11,6 +11,18 @@ the same order, same exits); positions of the rewritten nodes are those of the s
                                                   if C: yield E      clause; only when the names bound by `t` occur nowhere
                                                                      else in the function, so that the loop variable
                                                                      leaking into the function scope changes nothing)
+
+  N3  for t in IT:                      ==>   R.extend(E for t in IT if C)
+          if C: R.append(E)                   (R a name or attribute chain that t, E, C do not rebind; the names bound by `t`
+                                               occur nowhere else in the function. list.extend consumes the generator item
+                                               by item, so a failure half-way leaves the same partial list)
+
+  N4  x = [a, b]  |  x = [e for ...]    ==>   x = [a, b, *(E for t in IT if C)]  |  x = [*(e for ...), *(E for ...)]
+      x.extend(E for t in IT if C)            (x a local name, the two statements adjacent, the generator does not read x;
+                                               `x = []` followed by the extend is the plain comprehension [E for t in IT if C])
+
+  N5  with contextlib.suppress(A, B):   ==>   try: BODY
+          BODY                                except (A, B): pass        (single context manager, no `as`)
 """
 from __future__ import annotations
 
@@ -35,6 +47,114 @@ class _Normaliser(ast.NodeTransformer):
             node.test = _negate(node.body[0].test)
             node.body = node.body[1:]
             break
+        return node
+
+
+def _names(node: ast.AST):
+    return {n.id for n in ast.walk(node) if isinstance(n, ast.Name)}
+
+
+def _chain(e: ast.expr) -> bool:
+    """a name or an attribute chain on a name (self._list)"""
+    while isinstance(e, ast.Attribute):
+        e = e.value
+    return isinstance(e, ast.Name)
+
+
+class _Accumulate(ast.NodeTransformer):
+    """N3, N4, N5 inside one function body (nested functions are handled by their own pass)"""
+
+    def __init__(self, fn: ast.AST) -> None:
+        self.fn = fn
+
+    def visit_FunctionDef(self, node):
+        if node is not self.fn:
+            return node
+        self.generic_visit(node)
+        return node
+
+    visit_AsyncFunctionDef = visit_FunctionDef
+
+    def visit_Lambda(self, node):
+        return node
+
+    def visit_ClassDef(self, node):
+        return node
+
+    # ---- N5
+    def visit_With(self, node: ast.With) -> ast.AST:
+        self.generic_visit(node)
+        if len(node.items) == 1 and node.items[0].optional_vars is None:
+            ce = node.items[0].context_expr
+            if isinstance(ce, ast.Call) and not ce.keywords and ce.args and not any(isinstance(a, ast.Starred) for a in ce.args) \
+                    and ast.unparse(ce.func) in ("contextlib.suppress", "suppress"):
+                typ = ce.args[0] if len(ce.args) == 1 else ast.copy_location(ast.Tuple(elts=list(ce.args), ctx=ast.Load()), ce)
+                handler = ast.copy_location(ast.ExceptHandler(type=typ, name=None, body=[ast.copy_location(ast.Pass(), node)]), node)
+                return ast.copy_location(ast.Try(body=node.body, handlers=[handler], orelse=[], finalbody=[]), node)
+        return node
+
+    # ---- N3
+    def visit_For(self, node: ast.For) -> ast.AST:
+        self.generic_visit(node)
+        if node.orelse or len(node.body) != 1:
+            return node
+        inner = node.body[0]
+        conds = []
+        while isinstance(inner, ast.If) and not inner.orelse and len(inner.body) == 1:
+            conds.append(inner.test)
+            inner = inner.body[0]
+        if not (isinstance(inner, ast.Expr) and isinstance(inner.value, ast.Call) and isinstance(inner.value.func, ast.Attribute) and inner.value.func.attr == "append"
+                and len(inner.value.args) == 1 and not inner.value.keywords and not isinstance(inner.value.args[0], ast.Starred) and _chain(inner.value.func.value)):
+            return node
+        recv, elt = inner.value.func.value, inner.value.args[0]
+        tnames = _names(node.target)
+        if not all(isinstance(n, (ast.Name, ast.Tuple, ast.List)) for n in ast.walk(node.target) if isinstance(n, ast.expr) and not isinstance(n, ast.expr_context)):
+            return node
+        if tnames & _names(recv) or tnames & _names(node.iter):
+            return node
+        inside = {id(n) for n in ast.walk(node)}
+        if any(isinstance(n, ast.Name) and n.id in tnames and id(n) not in inside for n in ast.walk(self.fn)):
+            return node
+        if any(isinstance(n, ast.arg) and n.arg in tnames for n in ast.walk(self.fn)):
+            return node
+        if any(isinstance(n, (ast.Yield, ast.YieldFrom, ast.Await, ast.NamedExpr)) for x in [elt, node.iter] + conds for n in ast.walk(x)):
+            return node
+        gen = ast.copy_location(ast.GeneratorExp(elt=elt, generators=[ast.comprehension(target=node.target, iter=node.iter, ifs=conds, is_async=0)]), node)
+        call = ast.copy_location(ast.Call(func=ast.copy_location(ast.Attribute(value=recv, attr="extend", ctx=ast.Load()), inner.value.func), args=[gen], keywords=[]), inner.value)
+        return ast.copy_location(ast.Expr(value=call), node)
+
+    # ---- N4 (on statement lists)
+    def _merge(self, body):
+        out = []
+        for st in body:
+            prev = out[-1] if out else None
+            if (prev is not None and isinstance(st, ast.Expr) and isinstance(st.value, ast.Call) and isinstance(st.value.func, ast.Attribute) and st.value.func.attr == "extend"
+                    and isinstance(st.value.func.value, ast.Name) and len(st.value.args) == 1 and not st.value.keywords and isinstance(st.value.args[0], ast.GeneratorExp)):
+                x = st.value.func.value.id
+                tgt = None
+                if isinstance(prev, ast.Assign) and len(prev.targets) == 1 and isinstance(prev.targets[0], ast.Name) and prev.targets[0].id == x:
+                    tgt = prev
+                elif isinstance(prev, ast.AnnAssign) and isinstance(prev.target, ast.Name) and prev.target.id == x and prev.value is not None:
+                    tgt = prev
+                gen = st.value.args[0]
+                if tgt is not None and isinstance(tgt.value, (ast.List, ast.ListComp)) and x not in _names(gen) and x not in _names(tgt.value):
+                    if isinstance(tgt.value, ast.List) and not tgt.value.elts and len(gen.generators) >= 1:
+                        new_val = ast.copy_location(ast.ListComp(elt=gen.elt, generators=gen.generators), tgt.value)
+                    else:
+                        first = list(tgt.value.elts) if isinstance(tgt.value, ast.List) else \
+                            [ast.copy_location(ast.Starred(value=ast.copy_location(ast.GeneratorExp(elt=tgt.value.elt, generators=tgt.value.generators), tgt.value), ctx=ast.Load()), tgt.value)]
+                        new_val = ast.copy_location(ast.List(elts=first + [ast.copy_location(ast.Starred(value=gen, ctx=ast.Load()), gen)], ctx=ast.Load()), tgt.value)
+                    tgt.value = new_val
+                    continue
+            out.append(st)
+        return out
+
+    def generic_visit(self, node):
+        node = super().generic_visit(node)
+        for fld in ("body", "orelse", "finalbody"):
+            b = getattr(node, fld, None)
+            if isinstance(b, list) and b and all(isinstance(x, ast.stmt) for x in b):
+                setattr(node, fld, self._merge(b))
         return node
 
 
@@ -74,7 +194,12 @@ class _YieldFromGenexp(ast.NodeTransformer):
 class _PerFunction(ast.NodeTransformer):
     def visit_FunctionDef(self, node: ast.FunctionDef) -> ast.AST:
         self.generic_visit(node)
-        return _YieldFromGenexp(node).visit(node)
+        node = _YieldFromGenexp(node).visit(node)
+        return _Accumulate(node).visit(node)
+
+    def visit_AsyncFunctionDef(self, node: ast.AsyncFunctionDef) -> ast.AST:
+        self.generic_visit(node)
+        return _Accumulate(node).visit(node)
 
 
 def normalise(tree: ast.Module) -> ast.Module:
